@@ -79,6 +79,8 @@ def run(rng, tier, res=None, want=("knnpred", "select")):
                 "Xv": Xv.tolist(), "Yv": Yv.tolist(), "max_k": max_k, "min_k": min_k}
         Xb, Yb, Xvb = X.tobytes(), Y.tobytes(), Xv.tobytes()
         crit = []
+        junk = [np.full(max_k, 1e300), np.full(max_k + 1, 1e300)]
+        del junk                          # recycled memory must not influence a fit
         exp_tape = []
         try:
             if unsup:
